@@ -277,3 +277,35 @@ func VH_C11_applied(m int) {
 	}
 	verif.Cover("end")
 }
+
+// VH_C01_bigrange: a range delete over more data than one read chunk
+// (maxRangeSize, ~4 MiB) holds: n pairs with values of vKiB KiB each. The
+// reported count and previous pairs are those of the whole range, as for
+// small values.
+func VH_C01_bigrange(n, vKiB int) {
+	db := vhOpenDB()
+	ref := &vhRef{}
+	for i := 0; i < n; i++ {
+		k := []byte{byte('a' + i)}
+		v := make([]byte, vKiB<<10)
+		v[0] = verif.Byte()
+		vhSet(db, k, v)
+		ref.keys, ref.vals = append(ref.keys, k), append(ref.vals, v)
+	}
+	f := vhFSM(db, nil)
+	prev, count := verif.Bool(), verif.Bool()
+	cmd := &regattapb.Command{Table: []byte("t"), Type: regattapb.Command_DELETE, Kv: &regattapb.KeyValue{Key: []byte{0}}, RangeEnd: []byte{0}, PrevKvs: prev, Count: count}
+	out, err := f.Update([]sm.Entry{vhEntry(5, cmd)})
+	verif.Assert(err == nil && len(out) == 1, "update succeeds")
+	if err != nil || len(out) != 1 {
+		return
+	}
+	res := vhResult(out[0])
+	verif.Assert(len(res.Responses) == 1, "delete range: one response")
+	if len(res.Responses) == 1 {
+		vhDelResp(res.Responses[0], ref.keys, ref.vals, prev, count, "delete range over more than one read chunk")
+	}
+	w := vhWhole(f)
+	verif.Assert(w.Count == 0 && len(w.Kvs) == 0, "delete range over more than one read chunk: everything deleted")
+	verif.Cover("end")
+}
